@@ -261,6 +261,9 @@ func (r *Run) Finish() int {
 	if len(r.Samples) == 0 {
 		cov["samples"] = []interface{}{"(no case was generated)"}
 	}
+	if r.Assumptions == nil {
+		r.Assumptions = []string{}
+	}
 	ev := map[string]interface{}{
 		"property_id": r.Property, "tier": r.Tier, "seed": int64(r.Seed), "level": r.Level,
 		"coverage": cov, "assumptions": r.Assumptions, "wall_s": time.Since(r.Start).Seconds() + leanWall(r.Lean),
